@@ -128,7 +128,7 @@ def g_item(it):
 
 HEADER = ("From Coq Require Import List NArith Bool.\nImport ListNotations.\n"
           "From SV Require Import gen.GenLimits model.Limits.\n"
-          "Definition plan0 : row := mkRow 0 None true Running 0 false [] 0 false need_PLAN true [mkCmd [] 0].\n")
+          "Definition plan0 : row := mkRow 0 None true Running 0 false [] [] false need_PLAN true [mkCmd [] 0].\n")
 
 
 def g_case(avail, items):
